@@ -1248,6 +1248,9 @@ class Interp:
             except BreakEx:
                 F['$ghost%d' % k] = g
                 self.last_ghost[(qual, k)] = g
+                # leaving the loop from inside an iteration: recorded like a `return` inside the loop (an early exit written with `break` + the code
+                # after the loop is the same control flow as one written with `return`)
+                self.last_ghost[(qual, k, 'returned-inside')] = (i, Fpre)
                 return
             except ReturnEx:
                 self.last_ghost[(qual, k)] = g
